@@ -31,7 +31,11 @@ RULE = ("geometry product: sizes {1,2,3,5,9,17}^3 with <= 700 voxels + thin "
         "average/edge, average/outside 0, average/outside 255} x dtype5 x "
         "channels {1,2} x storage {deep gzip, flat, compressed_segmentation "
         "(uint32/64), sharded(1,1,0)} on 12 geometries covering every "
-        "(factor, fetch-factor) combination. Non-trivial: >= 2 scales and "
+        "(factor, fetch-factor) combination; method 'auto' resolved from the "
+        "info type x outside value {None, 0, 255} on 3 geometries; hand-made "
+        "two-scale descriptions: axis x factor {1,2} x old chunk {1,2,4} x "
+        "new chunk {1,2,3,4,8,16} x old size {16,13} (must be refused or "
+        "right). Non-trivial: >= 2 scales and "
         "some new chunk assembled from >= 2 old chunks.")
 ASSUMPTIONS = [
     "the downscaler itself is exact (C07); here it is applied to the whole "
@@ -103,8 +107,18 @@ def build_and_run(case, d, poison):
             "@type": "neuroglancer_uint64_sharded_v1", "hash": "identity",
             "minishard_bits": 1, "shard_bits": 1, "preshift_bits": 0,
             "minishard_index_encoding": "raw", "data_encoding": "raw"}
-    dyadic_pyramid.fill_scales_for_dyadic_pyramid(info,
-                                                  target_chunk_size=target)
+    if case.get("scales"):
+        # hand-made pyramid description (an info a user edited or wrote)
+        sc0 = info["scales"][0]
+        info["scales"] = []
+        for k, sc in enumerate(case["scales"]):
+            info["scales"].append(dict(
+                sc0, key="s%d" % k, size=list(sc["size"]),
+                chunk_sizes=[list(sc["chunk"])],
+                resolution=list(sc["resolution"])))
+    else:
+        dyadic_pyramid.fill_scales_for_dyadic_pyramid(
+            info, target_chunk_size=target)
     ds = os.path.join(d, "ds%d" % poison)
     os.makedirs(ds)
     opts = {"flat": case["storage"] == "flat",
@@ -124,11 +138,19 @@ def build_and_run(case, d, poison):
     opt = {}
     if case["outside"] is not None:
         opt["outside_value"] = case["outside"]
-    ds_obj = downscaling.get_downscaler(case["method"], options=opt)
+    if case.get("select") == "auto":
+        # the command-line default: method resolved from the info type; the
+        # reference is the explicitly constructed downscaler
+        info_for_auto = dict(info, type=case["info_type"])
+        used = downscaling.get_downscaler("auto", info_for_auto, opt)
+        ds_obj = downscaling.get_downscaler(case["method"], options=opt)
+    else:
+        ds_obj = used = downscaling.get_downscaler(case["method"],
+                                                   options=opt)
     exc = None
     with Poison(poison), np.errstate(all="ignore"):
         try:
-            dyadic_pyramid.compute_dyadic_scales(pio, ds_obj)
+            dyadic_pyramid.compute_dyadic_scales(pio, used)
         except Exception as e:
             exc = e
     sandbox.run_captured_exit_handlers()
@@ -284,11 +306,62 @@ def method_cases(tier):
                                     if st == "cseg" else "raw",
                                     "storage": "deep" if st == "cseg"
                                     else st})
-    return [c for c in out if c is not None]
+    out = [c for c in out if c is not None]
+    # method chosen by "auto" from the info type, with and without options
+    for gi in (0, 2, 6):
+        size, res, target = GEOMS[gi]
+        for typ, method in (("image", "average"), ("segmentation", "stride")):
+            for outside in (None, 0.0, 255.0):
+                out.append({"kind": "method", "size": list(size),
+                            "resolution": list(res), "target": target,
+                            "method": method, "outside": outside,
+                            "select": "auto", "info_type": typ,
+                            "dtype": "uint8", "channels": 1,
+                            "encoding": "raw", "storage": "deep"})
+    return out
+
+
+def handmade_cases(tier):
+    """two-scale descriptions written by hand: along one axis every
+    combination of downscaling factor {1,2}, old chunk size {1,2,4} and new
+    chunk size {1,2,3,4,8,16} for old sizes {16, 13}; the other axes are a
+    single chunk. Pairs the pyramid code cannot process must be refused,
+    the others computed correctly."""
+    out = []
+    for axis in range(3):
+        for f in (1, 2):
+            for oc in (1, 2, 4):
+                for nc in (1, 2, 3, 4, 8, 16):
+                    for osz in (16, 13):
+                        for other_f in (1, 2):
+                            if tier == "quick" and (osz == 13) != (
+                                    other_f == 2):
+                                continue
+                            size0, ch0 = [4, 4, 4], [4, 4, 4]
+                            size1 = [4 // other_f] * 3
+                            ch1 = [4, 4, 4]
+                            res0 = [1, 1, 1]
+                            res1 = [other_f] * 3
+                            size0[axis], ch0[axis] = osz, oc
+                            size1[axis] = -(-osz // f)
+                            ch1[axis] = nc
+                            res1[axis] = f
+                            out.append({
+                                "kind": "handmade", "size": size0,
+                                "resolution": res0, "target": 0,
+                                "scales": [
+                                    {"size": size0, "chunk": ch0,
+                                     "resolution": res0},
+                                    {"size": size1, "chunk": ch1,
+                                     "resolution": res1}],
+                                "method": "average", "outside": None,
+                                "dtype": "uint8", "channels": 1,
+                                "encoding": "raw", "storage": "flat"})
+    return out
 
 
 def units(tier):
-    cs = geometry_cases(tier) + method_cases(tier)
+    cs = geometry_cases(tier) + method_cases(tier) + handmade_cases(tier)
     per = 30
     return [{"cases": cs[i:i + per]} for i in range(0, len(cs), per)]
 
@@ -298,7 +371,8 @@ def space(tier):
             "targets": len(TARGETS),
             "geometry_product": len(SIZES) * len(RES) * len(TARGETS),
             "geometry_cases_run": len(geometry_cases(tier)),
-            "method_cases_run": len(method_cases(tier))}
+            "method_cases_run": len(method_cases(tier)),
+            "handmade_cases_run": len(handmade_cases(tier))}
 
 
 def run_unit(u):
